@@ -70,6 +70,7 @@ func main() {
 	fastF := flag.String("fast", "", "file with `fn-substring<TAB>obligation-regex` lines: matching obligations get a 3 s budget (known findings)")
 	modsetOf := flag.String("modset", "", "debug: print the computed modifies set of functions whose key contains this")
 	overlayF := flag.String("overlay", "", "JSON file mapping source paths to replacement files (mutation self-tests)")
+	probeT := flag.Int("probe", 2, "solver budget (s) of the vacuity probes; the self-test runs them longer to look for an inconsistent prelude")
 	patternsF := flag.String("patterns", "", "comma separated package patterns (default: the gonuts packages under contract)")
 	flag.Parse()
 	if *patternsF != "" {
@@ -267,7 +268,7 @@ func main() {
 			to := *timeout
 			var sr *SolveResult
 			if j.o.ExpectSat {
-				sr = Probe(file, 2)
+				sr = Probe(file, *probeT)
 			} else {
 				if isFast(j.r.Fn, j.r.Name) {
 					to = 3
